@@ -1,6 +1,10 @@
 import CqlVerif.Model.Hostile
 import CqlVerif.Spec.PanicTable
 import CqlVerif.Gen.PanicSites
+import CqlVerif.Gen.LockOrder
+import CqlVerif.Spec.LockOrder
+import CqlVerif.Lemmas.Deadlock
+import CqlVerif.Model.Fanout
 /-!
 # C17 — Hostile or malformed peers cannot crash or wedge the proxy
 -/
@@ -265,5 +269,98 @@ example : bodyMsg 5 0 9 ([0,0,0,15] ++ [83,69,76,69,67,84,32,118,32,70,82,79,77,
     some (.prepare [83,69,76,69,67,84,32,118,32,70,82,79,77,32,116] [34]) := by decide
 example : identifierFromString [34] = .ret ⟨[34], true⟩ := by decide
 example : queryHostsLocal [⟨true, none⟩, ⟨false, some 1⟩] = .ret none := by decide
+
+/-! ### Wedging: lock order and blocking sends (regenerated from /repo on every run) -/
+
+/-- **lock_order_ranked** — every place in proxy/ and proxycore/ where a mutex is acquired while
+another may be held (any path through the function, any caller: may-hold analysis over the typed
+SSA and the VTA call graph of the current source) goes strictly up in `LockOrder.rank`: in particular
+no two locks of the same class are ever nested and no leaf lock is held while another is taken -/
+theorem lock_order_ranked :
+    Gen.LockOrder.edges.all (fun e => decide (LockOrder.rank e.1 < LockOrder.rank e.2.1)) = true := by decide +kernel
+
+/-- **sends_under_lock_allowed** — a goroutine blocks on a channel send only while holding nothing,
+the start-up lock or its own request's lock: never while holding a lock that the requests of other
+clients need (the session table's lock, a pool's, a connection's) -/
+theorem sends_under_lock_allowed :
+    Gen.LockOrder.sends.all (fun e => LockOrder.sendHolders.contains e.1) = true := by decide +kernel
+
+/-- **no_lock_deadlock** — with locks acquired in rank order (what `lock_order_ranked` establishes
+class by class; two locks of one class are never nested, so the class rank is a rank of instances)
+there is no cycle of goroutines each waiting for a lock the next one holds, in any state -/
+theorem no_lock_deadlock (rank : Deadlock.Lock → Nat) (s : Deadlock.St) (hr : Deadlock.Ranked rank s)
+    (t : Deadlock.Thread) (ts : List Deadlock.Thread) (hc : Deadlock.WaitChain s t ts) :
+    ¬ ∃ l, s.waits ((t :: ts).getLast (by simp)) = some l ∧ l ∈ s.holds t :=
+  fun h => Deadlock.no_deadlock_of_ranked rank s hr t ts hc h
+
+/-- non-vacuity: the extracted tables are not empty, and the nesting the order exists for is there -/
+example : Gen.LockOrder.edges.length > 5 ∧ Gen.LockOrder.sends.length > 2 ∧
+    Gen.LockOrder.edges.any (fun e => e.1 == "proxy.request.mu" && e.2.1 == "proxycore.ClientConn.closingMu") = true := by decide +kernel
+
+/-! ### A known finding, stated about the model of the code as it is (known_findings.json, `C17:canary:H`) -/
+
+open Fanout in
+/-- what keeps the other client waiting: its answer is behind answers for client 0 that do not fit -/
+def Starved (t1 : Nat) (rest : List (Nat × Nat)) (s : Fanout.St) : Prop :=
+  ∃ pre : List (Nat × Nat), s.inbox = pre ++ (1, t1) :: rest ∧ (∀ e ∈ pre, e.1 = 0) ∧ 1 ≤ pre.length ∧
+    (s.queue 0).length + pre.length = s.cap + 1 ∧ s.queue 1 = [] ∧ s.delivered 1 = []
+
+open Fanout in
+theorem starved_step (t1 : Nat) (rest : List (Nat × Nat)) (s : Fanout.St) (a : Fanout.Act) (ha : a ≠ .drain 0)
+    (h : Starved t1 rest s) : Starved t1 rest (Fanout.step s a) := by
+  obtain ⟨pre, hin, hpre, hlen, hsum, hq1, hd1⟩ := h
+  cases a with
+  | deliver =>
+    cases pre with
+    | nil => simp at hlen
+    | cons e pre' =>
+      obtain ⟨c, t⟩ := e
+      have hc : c = 0 := hpre (c, t) (by simp)
+      subst hc
+      simp only [Fanout.step, hin, List.cons_append]
+      split
+      · rename_i hlt
+        refine ⟨pre', rfl, fun e he => hpre e (by simp [he]), ?_, ?_, ?_, hd1⟩
+        · simp only [List.length_cons] at hsum; omega
+        · simp only [Fanout.set, List.length_cons, ↓reduceIte, List.length_append, List.length_nil] at hsum ⊢; omega
+        · simpa [Fanout.set] using hq1
+      · exact ⟨(0, t) :: pre', by simp [hin], hpre, hlen, hsum, hq1, hd1⟩
+  | drain c =>
+    have hc0 : c ≠ 0 := fun e => ha (by rw [e])
+    simp only [Fanout.step]
+    split
+    · exact ⟨pre, hin, hpre, hlen, hsum, hq1, hd1⟩
+    · rename_i t tl hq
+      have hc1 : c ≠ 1 := by intro e; rw [e, hq1] at hq; cases hq
+      refine ⟨pre, hin, hpre, hlen, ?_, ?_, ?_⟩
+      · have : ¬ (0 = c) := fun e => hc0 e.symm
+        simp only [Fanout.set, this, ↓reduceIte]; exact hsum
+      · have : ¬ (1 = c) := fun e => hc1 e.symm
+        simp only [Fanout.set, this, ↓reduceIte]; exact hq1
+      · have : ¬ (1 = c) := fun e => hc1 e.symm
+        simp only [Fanout.set, this, ↓reduceIte]; exact hd1
+
+/-- **nonreading_client_starves_others** (the negation of what C17 asks, for the code as it stands) —
+whatever the queue capacity: once a backend connection carries one answer more for a client that
+does not read than that client's queue holds, the answer behind them for another client is never
+delivered, however long the other client keeps reading and whatever else happens - until the first
+client reads or goes away.  Replayed on the real proxy by the hostile stream's `H:` attack. -/
+theorem nonreading_client_starves_others (cap : Nat) (tags : List Nat) (htags : tags.length = cap + 1) (t1 : Nat)
+    (as : List Fanout.Act) (hno : ∀ a ∈ as, a ≠ Fanout.Act.drain 0) :
+    (Fanout.run { cap := cap, inbox := tags.map (fun t => (0, t)) ++ [(1, t1)] } as).delivered 1 = [] := by
+  suffices h : ∀ s, Starved t1 [] s → Starved t1 [] (Fanout.run s as) by
+    have h0 : Starved t1 [] ({ cap := cap, inbox := tags.map (fun t => (0, t)) ++ [(1, t1)] } : Fanout.St) :=
+      ⟨tags.map (fun t => (0, t)), rfl, by simp, by simp [htags], by simp [htags], rfl, rfl⟩
+    obtain ⟨_, _, _, _, _, _, hd⟩ := h _ h0
+    exact hd
+  induction as with
+  | nil => intro s h; exact h
+  | cons a t ih =>
+    intro s h
+    exact ih (fun b hb => hno b (List.mem_cons_of_mem _ hb)) _ (starved_step t1 [] s a (hno a List.mem_cons_self) h)
+
+/-- … and as soon as that client does read, the other one is served (the model is not stuck for good) -/
+example : (Fanout.run { cap := 2, inbox := [(0, 10), (0, 11), (0, 12), (1, 77)] }
+    [.deliver, .deliver, .deliver, .drain 0, .deliver, .deliver, .drain 1]).delivered 1 = [77] := by decide
 
 end CqlVerif.C17
